@@ -25,6 +25,11 @@ def _c01_units(prefix, prop, cq, ct):
     return us
 
 PROPERTIES = {
+ 'C13': dict(
+    level='exploration', exhaustive_claim=False,
+    rule='generated texts whose multi-unit characters sit around the chunk boundary x 5 encodings x BOM on/off x target char types {char, char16_t, char32_t} x chunk sizes {32, 64, 256} x {stringstream, short-read streambuf} x both policies; every truncation point (sampled, biased to the last characters); CEncodedStreamWriter; DetectEncoding on strings and streams; CSV/JSON/XML documents written by the independent encoder loaded through the stream entry points; oracle = ref_utf + bounded call counter',
+    assumptions=TRUSTED + ['ref_utf.h', 'BOM-less texts start with an ASCII non-NUL character and hold no U+0000 (detection is undecidable otherwise)', 'UTF-8 -> char is a byte copy by design (not judged for truncation)', 'hang = more ReadChunk calls than input bytes + 64 (a call counter, not a clock)'],
+    units=[U('c13_streams', 'c13_encoded_streams.cpp', flavour='asan', libs=['-lpugixml'], quick=dict(cases=60000, shards=8, min_eval=100000), thorough=dict(cases=2000000, shards=16, min_eval=1000000))]),
  'C06': dict(
     level='exploration', exhaustive_claim=True,
     rule='exhaustive 8/16-bit integers of every integer type and all format thresholds; generated values of 87 typed models (floats incl. NaN payloads/Inf/subnormals, strings/bin/arrays/maps at length thresholds, negative and sub-second chrono values, classes with base class and conditional member, maps with every key type); oracle = independent strict MessagePack decoder + independently derived tree + minimal-format rule + memory == stream bytes',
